@@ -19,8 +19,7 @@ LineL1(r) == LET k == StepIn(r) IN
                (r.res = 1) <=> (r.code = CodeOf(r, k) \/ r.code = CodeOf(r, k - 1))
 LineL2(r) == LET counter == r.t \div r.step
                  C(k) == CodeOf(r, k)
-                 block == IF r.algo = "sha512" THEN 128 ELSE 64
-             IN  (r.res = 1) <=> L2VerifyKey(C, r.code, r.t, r.step, r.klen, block)
+             IN  (r.res = 1) <=> L2Verify(C, r.code, r.t, r.step)
 
 Init == l = 1
 Next == l <= Len(Rec) /\ l' = l + 1
